@@ -219,11 +219,12 @@ var Receivers = []string{
 	"[1, 2].iter", "%[1, 2].iter", `"ab".char_iter`, `"ab".byte_iter`, "(1...3).iter", `{ "a" => 1 }.iter`, "^[1].iter",
 	"Date(2024, 1, 31)", `Timezone.get("UTC")`, "Result.ok(1)", `Result.err("e")`, "ImmutableBox(1)", "Box(1)",
 	"Duration::SECOND", "Duration.seconds(5)", "Time.now", "DateTime.now",
+	"Date::Span(10, 2, 9)", "Date(2024, 3, 1) - Date(2023, 1, 15)", "DateTime::Span(Date::Span(1, 2, 3), Time::Span.seconds(5))", "Time::Span.seconds(90)",
 }
 
 // Arguments, tried in rotating order for every parameter (the real checker decides which fit).
 var Arguments = []struct{ Expr, Hint string }{
-	{"2", "Int"}, {"0", "Int"}, {"-1", "Int"}, {"1.5", "Float"}, {`"ab"`, "String"}, {`""`, "String"}, {":a", "Symbol"}, {"`b`", "Char"},
+	{"2", "Int"}, {"0", "Int"}, {"-1", "Int"}, {"1.5", "Float"}, {"2.0", "Float"}, {`"ab"`, "String"}, {`""`, "String"}, {":a", "Symbol"}, {"`b`", "Char"},
 	{"true", "ool"}, {"nil", "nil"}, {"[1, 2]", "List"}, {"%[1, 2]", "Tuple"}, {`{ "a" => 1 }`, "Map"}, {"%{ a: 1 }", "Record"},
 	{"^[1]", "Set"}, {"(0...1)", "Range"}, {"%/a/", "Regex"}, {"|x| -> x", "|"}, {"|x, y| -> x", "|"}, {"|x| -> true", "|"},
 	{"3i64", "Int64"}, {"3i32", "Int32"}, {"3i16", "Int16"}, {"3i8", "Int8"}, {"3u64", "UInt64"}, {"3u32", "UInt32"}, {"3u16", "UInt16"},
